@@ -389,6 +389,17 @@ static void sweep_c03(Obj &o, const Case &c, XorShift &x) {
 // with a quadratic queue.  Performance is no part of any property, so patterns whose enumeration would
 // take seconds to minutes on this kind are left out (and counted).
 static bool xbw_too_costly(const Obj &o, const Case &c, const std::string &p, bool substr) {
+  if (cfg.param == "scale" && o.kind != K_XBW) {
+    // scale stage: an enumeration of tens of thousands of members is drained string by string through
+    // thousands of short calls (minutes under ASan): patterns with more than 3 000 matches are not issued
+    size_t m = 0;
+    for (auto &s2 : c.S) {
+      if (s2.size() < p.size()) continue;
+      if (substr ? memmem(s2.data(), s2.size(), p.data(), p.size()) != nullptr : memcmp(s2.data(), p.data(), p.size()) == 0) m++;
+      if (m > 3000) { cur->counters["scale_patterns_skipped_for_cost"]++; return true; }
+    }
+    return false;
+  }
   if (o.kind != K_XBW) return false;
   double cost = 0;
   for (auto &s : c.S) {
